@@ -13,12 +13,12 @@ import numpy as np
 from harness import core
 
 # ---- concrete tables behind the opaque content ids ------------------------------------------------------------
-KINDS = {"A": "Array2D", "B": "Array2D", "C": "Array2D", "D": "Array2D", "E": "Array2D", "M": "Mask2D", "N": "Mask2D",
+KINDS = {"P": "Array2D", "A": "Array2D", "B": "Array2D", "C": "Array2D", "D": "Array2D", "E": "Array2D", "M": "Mask2D", "N": "Mask2D",
          "K": "Kernel2D", "J": "Kernel2D", "L": "Array1D", "Q": "Mask1D"}
 TRIPLES = [("A", "J", "E"), ("E", "J", "E")]  # (data, psf, noise map): same shape, positive noise, psf summing to one exactly
 ANISO = {"B", "N"}
 SCALES = {"A": (0.5, 0.5), "B": (1.0, 2.0), "C": (0.1, 0.1), "D": (3.0, 3.0), "M": (0.25, 0.25), "N": (0.5, 1.5),
-          "K": (1.0, 1.0), "L": (0.2,), "Q": (2.0,), "E": (0.5, 0.5), "J": (0.5, 0.5)}
+          "K": (1.0, 1.0), "L": (0.2,), "Q": (2.0,), "E": (0.5, 0.5), "J": (0.5, 0.5), "P": (0.5, 0.5)}
 PATHS = {"nested": ("sub", "new", "a.fits"), "existing": ("ex", "b.fits"), "bare": ("c.fits",),
          "nested2": ("sub", "other", "deep", "d.fits"), "existing2": ("ex", "e.fits"), "bare2": ("f.fits",),
          "img_data": ("img", "data.fits"), "img_psf": ("img", "psf", "psf.fits"), "img_noise": ("noise_map.fits",)}
@@ -46,6 +46,10 @@ def _content(cid):
         return np.array([[1.0, 2.0, 3.0], [-4.0, 5.0, 6.0], [7.0, 8.0, 9.5]]), None
     if cid == "E":
         return np.array([[0.5, 2.0, 0.25], [4.0, 1.5, 3.0]]), None
+    if cid == "P":  # a masked array held in NATIVE storage that went through arithmetic (values + 10) before output
+        v = np.array([[11.0, 12.5, 13.0], [14.0, 15.0, 16.25], [17.0, 18.0, 19.0]])
+        m = np.array([[False, True, False], [False, False, True], [True, False, False]])
+        return v, m
     if cid == "J":
         return np.array([[0.0625, 0.125, 0.0625], [0.125, 0.25, 0.0], [0.0625, 0.25, 0.0625]]), None
     if cid == "L":
@@ -71,6 +75,8 @@ def _obj(cid):
     if kind == "Array2D":
         if m is None:
             return aa.Array2D.no_mask(values=v, pixel_scales=sc)
+        if cid == "P":
+            return aa.Array2D(values=v - 10.0, mask=aa.Mask2D(mask=m, pixel_scales=sc), store_native=True) + 10.0
         return aa.Array2D(values=v, mask=aa.Mask2D(mask=m, pixel_scales=sc))
     if kind == "Mask2D":
         return aa.Mask2D(mask=v, pixel_scales=sc)
@@ -507,7 +513,7 @@ def _exec_res_many(args):
 
 def run(ctx):
     quick = ctx.quick
-    contents = ["A", "B", "M", "K", "L"] if quick else ["A", "B", "C", "M", "K", "L", "Q"]
+    contents = ["A", "B", "P", "M", "K", "L"] if quick else ["A", "B", "C", "P", "M", "K", "L", "Q"]
     pathids = ["nested", "existing", "bare"]
     depth_mc = 4 if quick else 6
     nsim, dsim = (400, 9) if quick else (20000, 14)
